@@ -162,7 +162,7 @@ def parse_mir(text):
         if blk is None or s.startswith(("debug ", "scope ", "StorageLive", "StorageDead", "//", "let ")):
             continue
         st = s[:-1] if s.endswith(";") else s
-        if _TERM_RE.match(st) or " -> [return: " in st or st.endswith("-> unwind continue") or " -> unwind" in st and "(" in st and " = " in st:
+        if _TERM_RE.match(st) or " -> [return: " in st or st.endswith("-> unwind continue") or " -> unwind" in st and "(" in st and " = " in st or re.search(r" = .*\) -> bb\d+$", st, re.S):
             blk.term = st
         else:
             blk.stmts.append(st)
